@@ -21,9 +21,9 @@ int sm2_z256_point_is_on_curve(const SM2_Z256_POINT *P)
 	if (sm2_z256_is_zero(P->X) && sm2_z256_is_zero(P->Y) && !sm2_z256_is_zero(P->Z)) return 0;
 	return g_oncurve_verdict;
 }
-static int g_fromx_calls, g_fromx_verdict;
+static int g_fromx_calls, g_fromx_verdict, g_fromx_odd; static const uint8_t *g_fromx_ptr;
 int sm2_z256_point_from_x_bytes(SM2_Z256_POINT *P, const uint8_t x_bytes[32], int y_is_odd)
-{ g_fromx_calls++; uint8_t a = x_bytes[0], b = x_bytes[31]; (void)a; (void)b; if (g_fromx_verdict == 1) memset(P, 0x44, sizeof(*P)); return g_fromx_verdict; }
+{ g_fromx_calls++; g_fromx_odd = y_is_odd; g_fromx_ptr = x_bytes; uint8_t a = x_bytes[0], b = x_bytes[31]; (void)a; (void)b; if (g_fromx_verdict == 1) memset(P, 0x44, sizeof(*P)); return g_fromx_verdict; }
 /* mont(1) is a library constant; with the identity Montgomery map a normalised Z is whatever the library uses */
 static int g_mulgen_calls; static uint64_t g_mulgen_k[4];
 void sm2_z256_point_mul_generator(SM2_Z256_POINT *R, const sm2_z256_t k) { g_mulgen_calls++; memcpy(g_mulgen_k, k, 32); memset(R, 0x77, sizeof(*R)); }
@@ -74,6 +74,7 @@ void h_from_octets(void)
 	W p = val(sm2_z256_prime());
 	if (ret == 1 && inlen == 33) {
 		CHECK((g_in[0] == 2 || g_in[0] == 3) && g_fromx_calls == 1 && g_fromx_verdict == 1, "33 octets: only 02/03 || X, and only if decompression succeeded");
+		CHECK(g_fromx_odd == (g_in[0] == 3), "prefix 02 selects the even root, 03 the odd root");
 	} else if (ret == 1) {
 		V_COVER("accept path 2");
 		CHECK(inlen == 65 && g_in[0] == 0x04, "otherwise only 04 || X || Y is accepted");
